@@ -5,6 +5,7 @@ import (
 	"go/token"
 	"go/types"
 	"strings"
+	"time"
 
 	"golang.org/x/tools/go/ssa"
 )
@@ -236,9 +237,9 @@ func (e *Exec) now() TimeV {
 // ---- context ----
 
 type ctxObj struct {
-	parent *ctxObj
-	done   *channel
-	err    value
+	parent     *ctxObj
+	done       *channel
+	err        value
 	cancelable bool
 }
 
@@ -368,7 +369,12 @@ func init() {
 		}
 		panic(inconclusive{"Duration.Seconds on symbolic duration"})
 	}
-	stubs["(time.Duration).String"] = func(e *Exec, fn *ssa.Function, args []value) value { return "<duration>" }
+	stubs["(time.Duration).String"] = func(e *Exec, fn *ssa.Function, args []value) value {
+		if d, ok := args[0].(Int); ok && d.isConc() {
+			return time.Duration(d.signed()).String()
+		}
+		return "<duration>"
+	}
 	stubs["time.NewTicker"] = func(e *Exec, fn *ssa.Function, args []value) value {
 		panic(inconclusive{"time.NewTicker"})
 	}
